@@ -123,7 +123,8 @@ TEXT = {
             "Coq proof on the store model + correspondence", "5 (C14)"),
     "C15": ("Theorems: indexing a contents tree that represents ns returns the i-th represented node for every i (CRep_get, "
             "all depths, any zero summaries); len() / [i] of list views present the represented elements in order; == is "
-            "equality of hash-tree-roots; equal views have equal hashes. All three stack iterators (NodeIter, PackedIter, "
+            "equality of hash-tree-roots and, for a collision-free pair hash, exactly equality of contents for every type "
+            "(C15_root_iff_content: packing, merkleisation and mix-ins are injective); equal views have equal hashes. All three stack iterators (NodeIter, PackedIter, "
             "BitfieldIter), modelled literally as machines, are PROVED to yield exactly what indexing yields, in order, for "
             "every tree, depth and count (binary-increment stack invariant, intra-chunk counters). Python iterators vs. "
             "the machines, slices, to_obj: correspondence on lengths sweeping every subtree boundary + model-free "
